@@ -269,6 +269,9 @@ pub fn oracle(msgs: &[GenMsg], keepalives: &[u8], cuts: &[usize], out: &mut Case
     if msgs.len() > 1 {
         out.class("pipelined");
     }
+    if msgs.iter().skip(1).any(|m| cl_line_index(m).is_none()) && msgs.iter().any(|m| !m.body.is_empty()) {
+        out.class("message without Content-Length behind a message with body");
+    }
     if f.cut_in_head_after_cl || f.cut_in_body || f.cut_at_keepalive || f.decoy || f.odd_spelling {
         out.nontrivial(&(msgs, keepalives, cuts));
     }
@@ -362,6 +365,10 @@ pub fn corpus() -> Vec<GenMsg> {
         mk("OPTIONS sip:b@example.org SIP/2.0", &[via, from, to, cid, cs, "Content-Length: 2"], b"\r\n"),
         mk("OPTIONS sip:b@example.org SIP/2.0", &[via, from, to, cid, cs, "Content-Length: 4"], b"\r\n\r\n"),
         mk("SIP/2.0 200 OK", &[via, from, to, cid, cs, "Content-Length: 0"], b""),
+        // no Content-Length header at all: nothing states a body, so there is none (and nothing may be inherited
+        // from whatever message came before on the connection)
+        mk("OPTIONS sip:b@example.org SIP/2.0", &[via, from, to, cid, cs], b""),
+        mk("SIP/2.0 200 OK", &[via, from, to, cid, cs, "Content-Type: text/plain", "language: 4"], b""),
         mk("SIP/2.0 200 OK", &[via, "l: 4", from, to, cid, cs], body4),
         mk("SIP/2.0 180 Ringing", &["Content-Length: 4", via, from, to, cid, cs], b"\x00\xff\r\n"),
         mk("INVITE sip:b@example.org SIP/2.0", &[via, from, to, cid, "CSeq: 1 INVITE", "Content-Type: application/sdp", "Content-Length: 9"], b"v=0\r\no=- "),
@@ -538,7 +545,10 @@ fn msg_strategy() -> BoxedStrategy<GenMsg> {
             let sep = if fold_value { "\r\n ".to_string() } else { ws(ws_after, nsel >> 4) };
             let cl = format!("{name}{}:{sep}{}", ws(ws_before, nsel >> 8), body.len());
             let at = pick_idx(pos, lines.len() + 1);
-            lines.insert(at, cl);
+            // a message without body may come without any Content-Length header (1 in 4 of the bodiless ones)
+            if !(body.is_empty() && nsel % 4 == 3) {
+                lines.insert(at, cl);
+            }
             let mut m = GenMsg {
                 start: STARTS[pick_idx(ssel, STARTS.len())].to_string(),
                 lines,
@@ -625,7 +635,7 @@ pub fn property() -> Property {
     Property {
         fuzz: vec![FuzzStage { target: "sip_stream", runs: 800_000, max_len: 9000, seed_corpus: seed_corpus_stream }],
         id: "C03",
-        rule: "a case = 1..4 SIP messages (heads <= 4096 B, bodies <= 65535 B; Content-Length spelled in any case / compact l,L / blanks around the colon / folded / any position; decoy headers; bodies containing CRLFCRLF and fake messages) + 0..3 CRLF keep-alives before/between/after + a segmentation; fed through the real tokio_util FramedRead<_, StreamingDecoder>; oracle = each message alone through the datagram parser plus the generator's own record. cuts1: EVERY 1-cut of 26 corpus messages and of 2-message pipelines; cuts2: every 2-cut (thorough; strided in quick); random: generated sequences with k-cuts, 1-byte dribble, single write. Non-trivial = a cut inside a head after the Content-Length line, inside a body or at a keep-alive, or a decoy header, or a non-canonical Content-Length spelling; distinct by (messages, keep-alives, cuts).",
+        rule: "a case = 1..4 SIP messages (heads <= 4096 B, bodies <= 65535 B; Content-Length spelled in any case / compact l,L / blanks around the colon / folded / any position, or absent on a bodiless message; decoy headers; bodies containing CRLFCRLF and fake messages) + 0..3 CRLF keep-alives before/between/after + a segmentation; fed through the real tokio_util FramedRead<_, StreamingDecoder>; oracle = each message alone through the datagram parser plus the generator's own record. cuts1: EVERY 1-cut of 26 corpus messages and of 2-message pipelines; cuts2: every 2-cut (thorough; strided in quick); random: generated sequences with k-cuts, 1-byte dribble, single write. Non-trivial = a cut inside a head after the Content-Length line, inside a body or at a keep-alive, or a decoy header, or a non-canonical Content-Length spelling; distinct by (messages, keep-alives, cuts).",
         assumptions: vec![
             "line ends are CRLF (LF-only heads are outside the generated domain)",
             "the datagram parser (reference named by the statement) is taken as given; its body and header count are cross-checked against the generator's record",
